@@ -24,10 +24,10 @@ where
 {
     let a = graph::operation_adjacency(&f.h);
     let (ordering, completed) = graph::kahn(&a);
-    (
-        FiniteFunction::new(ordering, f.h.x.0.len()).unwrap(),
-        completed,
-    )
+    let order = FiniteFunction::new(ordering, f.h.x.0.len()).unwrap();
+    #[cfg(feature = "verif-hooks")]
+    crate::verif_trace::record_layer(f, &order, &completed);
+    (order, completed)
 }
 
 /// Given an [`OpenHypergraph`], compute a layering of its operations as a finite function `X → L`,
